@@ -10,10 +10,10 @@ def declare(reg):
     reg.record("SearchArgs", {
         "msg_set": "list[MsgElt]", "keyword": "str", "n": "int", "string": "str", "header": "str",
     })
-    reg.classdef("IMAPUserServer", {"uid_vv": "int", "maildir": "str"}, path="asimap/user_server.py")
+    reg.classdef("IMAPUserServer", {"uid_vv": "int", "maildir": "str", "mailbox": "ref:MH"}, path="asimap/user_server.py")
     reg.classdef("ClientProxy", {"name": "str"})
     # ghost view of the MH folder on disk: the set of message files (A-MH)
-    reg.classdef("MH", {"g_keys": "set[int]"})
+    reg.classdef("MH", {"g_keys": "set[int]", "g_seqs": "defaultdict[str,set[int]]", "g_mtime": "int"})
     reg.classdef(
         "Authenticated",
         {
